@@ -54,6 +54,13 @@ CHECKS = {
  "C15": ("exploration", "5 C15", "structural AST monitor: the generator owns the tree; Parser.Parse's AST is compared structurally with it for every flat operator sequence up to length 3 (quick) / 4 (thorough) over 18 operator spellings (exhaustive) and for random trees under minimal/random/full parenthesisation and random case, in every expression slot; then the canonical String() is re-parsed and must give the same tree and the same rendering",
          "Documented precedence table; literals without quote characters; & vs and spelling ignored.",
          "runtime monitoring: structural comparison against a reference precedence climber, print/re-parse fixpoint"),
+
+ "C17": ("exploration", "5 C17", "error-position monitor: every positional error from BuildPlan/execution is checked for range, and (plan time) against the token starts of the C16 reference tokenizer; after BindQuery the three-line rendering is checked by a caret-alignment checker (the window must be the query text placed so that the caret column marks byte Pos, markers must tell the truth) for paddings 0, 7, 20; single-edit corruptions, late faults in long queries, execution-time errors, leading/trailing blanks",
+         "Token starts from the reference tokenizer (not the lexer under test). Multi-line and blank queries are not judged.",
+         "runtime monitoring: offset-range/token-start oracle and caret-alignment checker"),
+ "C19": ("exploration", "5 C19", "Go race detector (harness built with -race; every DATA RACE block whose two accesses are inside package kvql is a violation) plus a differential monitor: each goroutine's outcomes (rows, error text, rendered error, Explain) must equal the same statements' solo outcomes; 2..16 goroutines, GOMAXPROCS 2..16, private / shared read-only / shared mutable stores with disjoint key prefixes, PRNG yields and sleeps at the storage boundary; gates on overlap and on distinct global event orders",
+         "Schedules are sampled, not enumerated; the detector sees only accesses that happen. Package-level configuration is set before the goroutines start.",
+         "runtime monitoring: race detector + concurrent-vs-solo differential under stress"),
 }
 PENDING = {}
 ALL = ["C%02d" % i for i in range(1, 20)]
